@@ -366,6 +366,153 @@ static void do_kill(char** w) {
   fprintf(out, "end\n");
 }
 
+/* ---- ksig: the whole range of signal numbers, judged by the kernel's own answer -------------------------------
+ * A reference child is started WITHOUT libuv (fork, the same child-side preparation uv_spawn promises: default
+ * dispositions 1..31, empty mask, setsid for `grp`; exec of the same program) and sent the number with kill(2)
+ * itself: the errno and what happened to that child (terminated by which signal / stopped / still running) is the
+ * reference.  Then a child spawned by uv_spawn is sent the same number through uv_process_kill / uv_kill(pid) /
+ * uv_kill(-pid) and must show the same return value and the same fate, reported through exit_cb.
+ * The victim is /bin/sleep (no sanitizer runtime, no handlers of its own), so every signal meets its default action. */
+#include <sys/syscall.h>
+#include <sys/resource.h>
+#include <limits.h>
+static const char* victim = "/bin/sleep";
+static int raw_kill(int pid, int sig) { return syscall(SYS_kill, pid, sig) ? -errno : 0; }
+static long ms_since(const struct timespec* t0) {
+  struct timespec t; clock_gettime(CLOCK_MONOTONIC, &t);
+  return (t.tv_sec - t0->tv_sec) * 1000 + (t.tv_nsec - t0->tv_nsec) / 1000000;
+}
+/* /proc/<pid>/status: state letter (0 if the process is gone) and the union of its pending sets */
+static char proc_state(pid_t pid, unsigned long long* pend) {
+  char p[64], l[512], st = 0; FILE* f; unsigned long long v;
+  *pend = 0;
+  snprintf(p, sizeof p, "/proc/%d/status", (int) pid);
+  f = fopen(p, "re");
+  if (!f) return 0;
+  while (fgets(l, sizeof l, f)) {
+    if (!strncmp(l, "State:", 6)) { char* q = l + 6; while (*q == ' ' || *q == '\t') q++; st = *q; }
+    else if ((!strncmp(l, "SigPnd:", 7) || !strncmp(l, "ShdPnd:", 7)) && sscanf(l + 7, "%llx", &v) == 1) *pend |= v;
+  }
+  fclose(f);
+  return st;
+}
+static const char* state_name(char st) {
+  static char b[2];
+  if (st == 'S' || st == 'R' || st == 'D' || st == 'I') return "run";
+  if (st == 'T') return "stop";
+  if (st == 0 || st == 'Z' || st == 'X') return "gone";
+  b[0] = st; b[1] = 0; return b;
+}
+static int may_be_pending(unsigned long long pend, int sig) {
+  /* a fatal signal is turned into a pending SIGKILL of the thread at send time (kernel/signal.c complete_signal) */
+  unsigned long long m = 1ull << (SIGKILL - 1);
+  if (sig >= 1 && sig <= 64) m |= 1ull << (sig - 1);
+  return (pend & m) != 0;
+}
+struct fate { int rc; int dead; int status; int termsig; char state[8]; };
+static pid_t ref_start(int grp) {
+  int pfd[2]; pid_t c; char b; ssize_t r;
+  if (pipe2(pfd, O_CLOEXEC)) return -1;
+  c = fork();
+  if (c < 0) { close(pfd[0]); close(pfd[1]); return -1; }
+  if (c == 0) {
+    int n; sigset_t e; char* av[3];
+    for (n = 1; n < 32; n++) if (n != SIGKILL && n != SIGSTOP) signal(n, SIG_DFL);
+    sigemptyset(&e); sigprocmask(SIG_SETMASK, &e, NULL);
+    if (grp) setsid();
+    av[0] = (char*) victim; av[1] = "300"; av[2] = NULL;
+    execv(victim, av);
+    b = 'x'; if (write(pfd[1], &b, 1) != 1) _exit(126);
+    _exit(127);
+  }
+  close(pfd[1]);
+  do r = read(pfd[0], &b, 1); while (r == -1 && errno == EINTR);
+  close(pfd[0]);
+  if (r != 0) { int st; waitpid(c, &st, 0); return -1; }       /* exec failed */
+  return c;
+}
+/* the kernel's answer for <sig> sent to a child (grp: to the child's own process group); cached per run */
+static struct fate* reference(int sig, int grp) {
+  static struct { int sig, grp; struct fate f; } cache[512]; static int nc;
+  struct fate* f; pid_t c; int i, st; struct timespec t0, tq; unsigned long long pend; char s;
+  for (i = 0; i < nc; i++) if (cache[i].sig == sig && cache[i].grp == grp) return &cache[i].f;
+  if (nc == 512) return NULL;
+  c = ref_start(grp);
+  if (c < 0) return NULL;
+  cache[nc].sig = sig; cache[nc].grp = grp; f = &cache[nc].f; nc++;
+  memset(f, 0, sizeof *f);
+  f->rc = raw_kill(grp ? -c : c, sig);
+  clock_gettime(CLOCK_MONOTONIC, &t0); tq = t0;
+  for (;;) {
+    pid_t r = waitpid(c, &st, WNOHANG);
+    if (r == c) { f->dead = 1; f->status = WIFEXITED(st) ? WEXITSTATUS(st) : 0; f->termsig = WIFSIGNALED(st) ? WTERMSIG(st) : 0; return f; }
+    if (f->rc != 0 || sig == 0) break;                           /* nothing was sent */
+    s = proc_state(c, &pend);
+    if (may_be_pending(pend, sig) || s == 'Z' || s == 'X' || s == 0) clock_gettime(CLOCK_MONOTONIC, &tq);
+    else if (ms_since(&tq) >= 150) break;                        /* taken by the process 150 ms ago and it is still there */
+    if (ms_since(&t0) > 10000) break;
+    usleep(1000);
+  }
+  snprintf(f->state, sizeof f->state, "%s", state_name(proc_state(c, &pend)));
+  raw_kill(c, SIGKILL);
+  while (waitpid(c, &st, 0) == -1 && errno == EINTR) {}
+  return f;
+}
+static const char* ename(int rc) { return rc == 0 ? "0" : uv_err_name(rc); }
+/* ksig <process|pid|grp> <sig> */
+static void do_ksig(char** w) {
+  uv_process_options_t opt; char* args[3]; int rc, sig = atoi(w[2]), pid, target, grp = !strcmp(w[1], "grp");
+  struct fate* f = reference(sig, grp); struct timespec t0, tq; unsigned long long pend; char s = 0;
+  if (!f) { fprintf(out, "ref-error\nend\n"); return; }
+  if (f->dead) fprintf(out, "ref %s term %d %d\n", ename(f->rc), f->status, f->termsig);
+  else fprintf(out, "ref %s alive %s\n", ename(f->rc), f->state);
+  args[0] = (char*) victim; args[1] = "300"; args[2] = NULL;
+  memset(&opt, 0, sizeof opt); opt.file = victim; opt.args = args; opt.exit_cb = exit_cb;
+  if (grp) opt.flags |= UV_PROCESS_DETACHED;
+  ncb = 0; nprocs = 1; cbcount[0] = 0;
+  rc = spawn_checked(loop, &procs[0], &opt);
+  if (rc) { fprintf(out, "spawn-error %s\nend\n", uv_err_name(rc)); return; }
+  pid = pids[0] = uv_process_get_pid(&procs[0]);
+  target = grp ? -pid : pid;
+  uv_run(loop, UV_RUN_NOWAIT);
+  fprintf(out, "probe %s\n", ename(uv_kill(target, 0)));
+  rc = !strcmp(w[1], "process") ? uv_process_kill(&procs[0], sig) : uv_kill(target, sig);
+  fprintf(out, "kill %s\n", ename(rc));
+  if (rc == 0 && f->dead) run_until(1, 10000);                   /* the kernel terminates a child for this number: wait for exit_cb */
+  else {                                                         /* else: until the number is no longer pending, + 60 ms */
+    clock_gettime(CLOCK_MONOTONIC, &t0); tq = t0;
+    for (;;) {
+      uv_run(loop, UV_RUN_NOWAIT);
+      if (ncb >= 1) break;
+      s = proc_state(pid, &pend);
+      if (may_be_pending(pend, sig) || s == 'Z' || s == 'X' || s == 0) clock_gettime(CLOCK_MONOTONIC, &tq);
+      else if (ms_since(&tq) >= 60 && (strcmp(f->state, "stop") || s == 'T' || ms_since(&tq) >= 2000)) break;
+      if (ms_since(&t0) > 10000) break;
+      usleep(1000);
+    }
+  }
+  if (ncb >= 1) fprintf(out, "settled dead\n");
+  else {
+    fprintf(out, "settled alive %s\n", state_name(proc_state(pid, &pend)));
+    fprintf(out, "cleanup\n");
+    if (cbcount[0] == 0) raw_kill(pid, SIGKILL);                 /* not reaped yet: the pid is still this child's */
+    run_until(1, 10000);
+  }
+  abandon(1);
+  uv_run(loop, UV_RUN_DEFAULT);
+  fprintf(out, "after %s\n", uv_err_name(uv_kill(target, 0)));
+  if (f->rc != 0)                                                /* a number kill(2) refuses: also on a pid that is gone */
+    fprintf(out, "dead %s %s\n", ename(uv_kill(target, sig)), ename(raw_kill(target, sig)));
+  zombies();
+  fprintf(out, "end\n");
+}
+/* kpid <self|none> <sig>: pids that are not children (only probe / refused numbers are ever sent) */
+static void do_kpid(char** w) {
+  int sig = atoi(w[2]), pid = !strcmp(w[1], "self") ? (int) getpid() : 0x7ffffff0;
+  if (sig >= 1 && sig <= 64) { fprintf(out, "bad-op\nend\n"); return; }
+  fprintf(out, "kpid %s %s\nend\n", ename(uv_kill(pid, sig)), ename(raw_kill(pid, sig)));
+}
+
 /* echo: stdin <- parent writes, stdout -> parent reads */
 static uv_pipe_t pin, pout; static char got[256]; static int ngot; static uv_write_t wr;
 static void alloc_cb(uv_handle_t* h, size_t s, uv_buf_t* b) { static char mem[256]; (void) h; (void) s; *b = uv_buf_init(mem, sizeof mem); }
@@ -424,6 +571,7 @@ int main(int argc, char** argv) {
   { char d[1024], np[4096]; char* b; const char* op = getenv("PATH");
     snprintf(d, sizeof d, "%s", self); b = strrchr(d, '/'); if (b) *b = 0;
     snprintf(np, sizeof np, "%s:%s", op ? op : "/usr/bin:/bin", d); setenv("PATH", np, 1); }
+  { struct rlimit rl; rl.rlim_cur = rl.rlim_max = 0; setrlimit(RLIMIT_CORE, &rl); }   /* children killed by SIGQUIT & co. leave no core files */
   uv_replace_allocator(d_malloc, d_realloc, d_calloc, d_free);
   loop = uv_default_loop();
   for (i = 0; i < 2; i++) { uv_signal_init(loop, &usig[i]); uv_unref((uv_handle_t*) &usig[i]); }
@@ -437,6 +585,8 @@ int main(int argc, char** argv) {
     else if (!strcmp(w[0], "ids") && nw == 5) do_ids(w);
     else if (!strcmp(w[0], "opts") && nw >= 5) do_opts(w, nw);
     else if (!strcmp(w[0], "kill") && nw == 3) do_kill(w);
+    else if (!strcmp(w[0], "ksig") && nw == 3) do_ksig(w);
+    else if (!strcmp(w[0], "kpid") && nw == 3) do_kpid(w);
     else if (!strcmp(w[0], "echo")) do_echo();
     else if (!strcmp(w[0], "place") && nw == 3) {     /* place <fd> <basefd>: dup a base file to a chosen free number */
       int fd = atoi(w[1]);
